@@ -41,7 +41,7 @@ COMPONENTS = {
     ],
     "stub": [
         "socket object given to SmartServerSocketStreamMedium (recv/send on SimPipes); its select() wait is skipped",
-        "echo request handlers sim.nobody / sim.body (scripted responses, record what they were given)",
+        "echo request handlers sim.nobody / sim.body / sim.early (scripted responses, record what they were given; sim.early takes a body but answers from do(), as PutRequest.do does when it refuses its path)",
         "pipelining shim: the stream medium's one-request-at-a-time guard (_current_request) is released by the harness between sends; "
         "a client-side v3 body stream that raises is answered through a hand-built ConventionalResponseHandler because _send loses its own",
     ],
